@@ -35,6 +35,10 @@ def check_nested_builders(repo: Repo, rep, rule: str) -> None:
                 problems.append(f"{k}={kws[k]} (expected {want})")
         if "attrs_registry" not in kws or "spec.attrs_registry" not in kws["attrs_registry"]:
             problems.append("attrs_registry is not handed down")
+        extra = sorted(set(kws) - set(IDENTITY_KW) - {"attrs_registry"})
+        if extra:
+            problems.append(f"additionally passes {extra}: everything but format / default dialect / holder must start from the nested class's own defaults "
+                            "(a nested class decides about its own dialect, postponed evaluation and first method)")
         inst = f"{key.split('::')[-1]}: nested builder({', '.join(sorted(kws))})"
         if problems:
             rep.violation(rule, key, inst, "the builder created for a nested (or Self-typed) dataclass does not carry the identity of the "
